@@ -544,7 +544,9 @@ class Body:
                 if (a, s) not in out:
                     out.add((a, s))
                     work.append(a)
-        return out
+        # loop-carried artefacts: an edge (a -> s) controls b only if b can be reached from s
+        # without going through a again (otherwise it is the *other* outcome of an earlier iteration)
+        return {(a, s) for (a, s) in out if s == b or b in self.reachable_from(s, avoid=(a,))}
 
     def fn_values(self):
         """function items used as values in this body (reified fn pointers, fn items passed as arguments)"""
